@@ -89,7 +89,7 @@ def seed():
         return 0
 
 
-def write_evidence(pid, tier, level, coverage, assumptions, wall_s, violations, extra=None):
+def write_evidence(pid, tier, level, coverage, assumptions, wall_s, violations, extra=None, partial=False):
     os.makedirs(EVIDENCE_DIR, exist_ok=True)
     ev = {
         "property_id": pid,
@@ -103,11 +103,13 @@ def write_evidence(pid, tier, level, coverage, assumptions, wall_s, violations, 
     }
     if extra:
         ev.update(extra)
-    tmp = os.path.join(EVIDENCE_DIR, pid + ".json.tmp")
+    # a filtered run (--only) is a developer run: it must not replace the evidence of the registered command
+    name = pid + (".partial.json" if partial else ".json")
+    tmp = os.path.join(EVIDENCE_DIR, name + ".tmp")
     with open(tmp, "w") as f:
         json.dump(ev, f, indent=1, sort_keys=False)
         f.write("\n")
-    os.replace(tmp, os.path.join(EVIDENCE_DIR, pid + ".json"))
+    os.replace(tmp, os.path.join(EVIDENCE_DIR, name))
     return ev
 
 
